@@ -768,10 +768,17 @@ def asyncore_flush_race(r, rng, n=40):
             DA.threading = sched.shim_module(_threading, Lock=lambda: s.Lock(), RLock=lambda: s.RLock())
         wire = bytearray()
         cap = rng.choice([3, 5, 8, 64])
+        # every third run the connection dies under a write: the n-th send() finds the peer gone
+        reset_at = rng.randint(1, 6) if k % 3 == 2 else None
+        calls = {"n": 0, "closed": 0}
+        downs = []
 
         class Sock(object):
             def send(self, data):
                 s.yield_point(("sock.send", len(data)))
+                calls["n"] += 1
+                if reset_at is not None and calls["n"] >= reset_at:
+                    raise ConnectionResetError(104, "Connection reset by peer")
                 take = bytes(data[:cap])
                 wire.extend(take)
                 return len(take)
@@ -783,7 +790,8 @@ def asyncore_flush_race(r, rng, n=40):
                 return -1
 
             def close(self):
-                pass
+                calls["closed"] += 1
+        CB.onDisconnected = lambda cb: downs.append("down")
         try:
             d = DA.AsyncoreConnectionDispatcher(CB())
             d.socket = Sock()
@@ -803,12 +811,14 @@ def asyncore_flush_race(r, rng, n=40):
             def server():
                 # the serving thread: flushes while there is something to flush, until every sender is done and the buffer is empty
                 while True:
+                    if downs:
+                        return          # the connection is over: nothing left to serve
                     if len(d.out_buffer):
                         d.handle_write()
                     elif done["n"] == senders:
                         return
                     else:
-                        s.wait_until("work", lambda: len(d.out_buffer) or done["n"] == senders)
+                        s.wait_until("work", lambda: len(d.out_buffer) or done["n"] == senders or downs)
             for name in sorted(chunks):
                 s.spawn(name, lambda name=name: sender(name))
             s.spawn("loop", server)
@@ -829,6 +839,16 @@ def asyncore_flush_race(r, rng, n=40):
                 r.violation("wedged:asyncore-flush", "senders and the serving thread flushing the asyncore dispatcher's buffer: %s" % e, {"chunks": {a: [c.decode() for c in b] for a, b in chunks.items()}})
                 continue
             errs = [t.error for t in s.threads if t.error]
+            if reset_at is not None:
+                # oracle for a connection that died under a write: nobody blocked (checked above), nobody saw an exception, the end was
+                # reported (a second writer that was already past the connected test may report it again: the network layer announces only a state change) and what reached the socket before is a prefix of
+                # some interleaving of whole chunks - here only: every byte on the wire belongs to a chunk that was handed over
+                allowed = set(b for cs in chunks.values() for c in cs for b in c)
+                if errs or (calls["n"] >= reset_at and not downs) or any(b not in allowed for b in wire):
+                    r.violation("reset:asyncore-flush", "chunks handed to the asyncore dispatcher %s, send() call #%d finds the connection reset: errors %r, end of connection reported %d times, bytes on the wire %r; schedule tail %s" % (
+                        {a: [c.decode() for c in b] for a, b in chunks.items()}, reset_at, errs, len(downs), bytes(wire), s.trace[-10:]),
+                        {"chunks": {a: [c.decode() for c in b] for a, b in chunks.items()}, "reset_at": reset_at})
+                continue
             # oracle: the wire splits into whole chunks, each chunk once, per sender in order
             rest = bytes(wire)
             got = []
